@@ -2139,3 +2139,60 @@ def r20(cx):
 
 
 RS.explanation += ' Every pathname-taking simulated system call goes through the two resolvers (R20); the empty pathname is ENOENT and `name/` is not created (R6d).'
+
+
+# added after the audit C13h2 #1 (open finding: a simulated process blocked in open() of a FIFO is never resumed)
+@RS.rule('C19.R21', 'K-PASS', 'a woken simulated process makes progress: the run loop is woken by whatever its task waits for, not only by what '
+         'select() watches (a FIFO whose other end gets opened wakes pending_open_wakers), so every resumption of the run loop polls the '
+         'TASK again before it goes back to sleep - re-polling only select() leaves a process blocked in open(fifo) asleep for ever')
+def r21(cx):
+    F = cx.F
+    cands = [b for b in F.bodies.values() if b.root.endswith('::run_virtual') and 'Concurrent<' in b.root and b.fn != b.root]
+    cx.require(len(cands) >= 1, 'Concurrent<VirtualSystem>::run_virtual (coroutine body) not found')
+    body = max(cands, key=lambda b: len(b.blocks))
+    cx.fn(body.root)
+    task_polls = set()
+    for blk, t in body.calls():
+        if Q.callee_is(t, ['futures_util::async_await::poll::poll']):
+            ty = ' '.join(str(x) for x in (t.get('at') or [])) + ' ' + str(body.locals[t['dest']['l']].get('ty'))
+            if re.search(r'Pin<&mut F>', ty):
+                task_polls.add(blk)
+    cx.require(task_polls, 'the poll of the task future (Pin<&mut F>) was not found in run_virtual')
+    # suspension points that really suspend: the `pending!()` of the wait loop and the awaits of block_while_stopped
+    yields = [b for b in range(len(body.blocks)) if body.term(b)['k'] == 'yield']
+    real = []          # the voluntary `pending!()` suspensions: (poll block of the PendingOnce future, yield block)
+    for y in yields:
+        cur = y
+        for _ in range(8):
+            ps = body.pred(cur)
+            if len(ps) != 1:
+                break
+            cur = ps[0]
+            t = body.term(cur)
+            if t['k'] == 'call' and re.search(r'Future(<.*>)?>?::poll', pp.callee(t)):
+                if 'PendingOnce' in pp.callee(t) or 'PendingOnce' in str(t['f'].get('self') or ''):
+                    real.append((cur, y))
+                break
+    cx.floor(len(real), 1, 'voluntary suspension points (pending!()) of run_virtual')
+    du = Q.DefUse(body)
+    dom = body.dominators()
+    bad = []
+    for P, y in real:
+        # where the process continues once it has been woken: the exit of the await loop of `pending!()`
+        conts = [b for b in body.reachable(P) if P in body.pred(b) or any(P in body.pred(q) and b in body.succ(q) for q in body.succ(P))]
+        conts = [b for b in conts if b != y and y not in body.reachable(b, removed={P})]
+        cx.require(conts, 'the continuation after pending!() was not found')
+        chain = sorted(dom.get(P, ()), key=lambda d_: len(dom.get(d_, ())))      # entry ... P, in dominance order
+        known = Q.flags_after_chain(body, chain)
+        for c in conts:
+            p = Q.shortest_path_flags(F, body, du, c, {P_ for P_, y_ in real}, removed=task_polls, known0=known)
+            if p is not None:
+                bad.append((y, p))
+                break
+    cx.site('run_virtual: %d suspension points; resumptions that can go back to sleep without polling the task: %d' % (len(real), len(bad)))
+    if bad:
+        y, p = bad[0]
+        cx.violation(body.root, 'resumed-without-polling-task', 'after a wake-up the run loop of a simulated process can re-poll select() only and '
+                     'suspend again without polling the task: a task that waits for something select() does not watch - open() of a FIFO whose '
+                     'other end is not open yet - is never resumed, so `echo hi >fifo & cat <fifo; wait` deadlocks under every schedule '
+                     '("deadlock detected"), while a real kernel completes the rendezvous', loc=body.loc(body.term(y)), path=Q.render_path(body, p))
